@@ -11,6 +11,7 @@
 //!   K index             an extreme constant expression in one of the compile-time-evaluated positions
 //!   A index             an attribute spelling in front of one kind of declaration or statement
 //!   G index             a pipeline property with one kind of value in one kind of pipeline
+//!   H index             a preprocessor directive with a well-formed or cut-off operand
 //!   Q seed              a macro program of the C12 generator
 //!   X hex               the entry file given byte for byte
 //! Output: OK n | ERR <first line> | PANIC <file>: <message> ; the supervisor adds ABORT <status> and TIMEOUT.
@@ -249,6 +250,27 @@ fn pipe_probe(i: usize) -> Option<String> {
     Some(format!("struct VA {{ float4 position : SV_Position; }};\n[numthreads(1, 1, 1)] void CSMAIN() {{}}\nfloat4 VSMAIN(uint vid : SV_VertexID) : SV_Position {{ return float4(0, 0, 0, 1); }}\nfloat4 PSMAIN(float4 pos : SV_Position) : SV_Target0 {{ return pos; }}\n[numthreads(32, 1, 1)] [outputtopology(\"triangle\")] void MSMAIN(uint3 dtid : SV_DispatchThreadID, out vertices VA o_v[32], out indices uint3 o_t[32]) {{ SetMeshOutputCounts(32, 32); VA v; v.position = float4(0, 0, 0, 1); o_v[dtid.x] = v; o_t[dtid.x] = uint3(0, 1, 2); }}\nPipeline Main {{ {} }}\n", body))
 }
 
+/// every directive with well-formed and cut-off operands (unclosed parentheses, missing operands, cut-off strings and
+/// parameter lists)
+pub const DIRECTIVE_HEADS: &[&str] = &["#if", "#elif", "#ifdef", "#ifndef", "#define", "#undef", "#include", "#pragma", "#else", "#endif", "#", "#line", "#error", "# if", "#if defined"];
+pub const DIRECTIVE_TAILS: &[&str] = &[
+    "", " ", " (", " (1", " (1))", " ()", " 1 +", " 1 ||", " &&", " !", " !(X", " defined", " defined(", " defined(A", " defined A B", " defined(A) && (B", " (RSSL_TARGET_MSL", " A", " A B", " A(", " A(x",
+    " A(x,", " A(x,)", " A(x) x ##", " A(x) ## x", " A(x) #x", " \"", " \"a.h", " <", " <a.h", " once", " once once", " 1 ? 2 : 3", " 0x", " 1.5", " 18446744073709551616", " -1", " (-(1))", " 1 / 0", " 1 % 0",
+    " 1 << 64", " A ## B", " ((((((((1", " 1 == ", " (1 == 1", " !!!!!!", " 1 1", " ) (", " A(", " A)", " ,",
+];
+
+fn directive_probe(i: usize) -> Option<String> {
+    let head = DIRECTIVE_HEADS.get(i / DIRECTIVE_TAILS.len())?;
+    let tail = DIRECTIVE_TAILS[i % DIRECTIVE_TAILS.len()];
+    Some(match *head {
+        "#elif" => format!("#define A 1\n#if 0\nint w;\n#elif{}\nint x;\n#endif\nint y;\n", tail),
+        "#else" => format!("#if 0\nint w;\n#else{}\nint x;\n#endif\n", tail),
+        "#endif" => format!("#if 1\nint x;\n#endif{}\nint y;\n", tail),
+        "#if" | "#ifdef" | "#ifndef" | "# if" | "#if defined" => format!("#define A 1\n{}{}\nint x;\n#endif\nint y;\n", head, tail),
+        _ => format!("{}{}\nint x;\n", head, tail),
+    })
+}
+
 fn const_probe(i: usize) -> Option<String> {
     let e = CONST_EXPRS.get(i / 8)?;
     let pre = "enum EK { A = 1, B = -3 };\n";
@@ -366,6 +388,7 @@ pub fn input_of(w: &[&str]) -> Option<Input> {
         ("K", 2) => plain(const_probe(w[1].parse().ok()?)?),
         ("A", 2) => plain(attr_probe(w[1].parse().ok()?)?),
         ("G", 2) => plain(pipe_probe(w[1].parse().ok()?)?),
+        ("H", 2) => plain(directive_probe(w[1].parse().ok()?)?),
         ("Q", 2) => {
             // a macro program of the C12 generator (definitions, invocations with right and wrong argument counts,
             // ## pastes, redefinitions, include graphs); the API defines are written as #define lines in front
@@ -444,6 +467,7 @@ pub fn gen_cases(seed: u64, n: usize, thorough: bool) -> Vec<String> {
     for i in 0..(CONST_EXPRS.len() * 8) { out.push(format!("{} K {}", cfg(&mut rng), i)); }
     for i in 0..(ATTRS.len() * ATTR_POSITIONS.len()) { out.push(format!("{} A {}", cfg(&mut rng), i)); }
     for i in 0..(PIPE_PROPS.len() * PIPE_VALUES.len() * 2 * PIPE_SHAPES.len()) { out.push(format!("{} G {}", cfg(&mut rng), i)); }
+    for i in 0..(DIRECTIVE_HEADS.len() * DIRECTIVE_TAILS.len()) { out.push(format!("{} H {}", cfg(&mut rng), i)); }
     for _ in 0..(n * 6).max(300) { out.push(format!("{} Q {}", cfg(&mut rng), rng.below(1 << 40))); }
     for _ in 0..n {
         out.push(format!("{} B {} {}", cfg(&mut rng), rng.below(1 << 40), rng.range(1, 4096)));
